@@ -1304,7 +1304,7 @@ func (m *mtr) bindCall(as *ast.AssignStmt) string {
 	return o
 }
 
-func isNilIdent(e ast.Expr) bool { return isIdent(e, "nil") }
+func imIsNilIdent(e ast.Expr) bool { return isIdent(e, "nil") }
 
 func (m *mtr) ret(s *ast.ReturnStmt) string {
 	if len(s.Results) == 0 {
@@ -1322,7 +1322,7 @@ func (m *mtr) ret(s *ast.ReturnStmt) string {
 		m.fail(s, "return with %d values", len(s.Results))
 	}
 	last := s.Results[len(s.Results)-1]
-	if !isNilIdent(last) {
+	if !imIsNilIdent(last) {
 		return "ierr " + m.errCode(last)
 	}
 	pre := ""
